@@ -235,4 +235,68 @@ example :
       (fun c => if c = 4 then 3 else 0) [0, 0]
     = ([.rank 0 [.cmd 1, .cmd 2, .exe, .cmd 5], .rank 1 [.cmd 1, .cmd 3, .cmd 4]], 1) := by decide
 
+/-! ## named environment and described variables -/
+
+theorem envGet_envSet (e : Env) (k v k' : Nat) :
+    envGet (envSet e k v) k' = if k' = k then some v else envGet e k' := by
+  unfold envGet envSet
+  by_cases h : k' = k
+  · subst h; simp
+  · have h' : ¬ k = k' := fun x => h x.symm
+    simp only [List.find?_cons, h', decide_false, if_neg h]
+    congr 1
+    induction e with
+    | nil => rfl
+    | cons x xs ih =>
+      simp only [List.filter_cons]
+      split
+      · rw [List.find?_cons, List.find?_cons, ih]
+      · rename_i hx
+        have hx' : x.1 = k := by simpa using hx
+        have hk' : decide (x.1 = k') = false := by
+          simp only [decide_eq_false_iff_not]; intro e'; exact h (by rw [← e', hx'])
+        rw [ih, List.find?_cons, hk']
+
+theorem runEnv_exports (env : List (Nat × Nat)) (hn : (env.map (·.1)).Nodup) :
+    ∀ (e : Env) (k v : Nat), (k, v) ∈ env →
+      envGet (runEnv e (env.map (fun kv => EnvAct.export kv.1 kv.2))) k = some v := by
+  induction env with
+  | nil => intro e k v h; cases h
+  | cons kv rest ih =>
+    intro e k v h
+    have hnr : (rest.map (·.1)).Nodup := (List.nodup_cons.mp hn).2
+    have hk : kv.1 ∉ rest.map (·.1) := (List.nodup_cons.mp hn).1
+    simp only [List.map_cons, runEnv, List.foldl_cons, applyAct]
+    rcases List.mem_cons.mp h with h | h
+    · -- this export: no later export touches the key
+      subst h
+      have key : ∀ (l : List (Nat × Nat)) (e' : Env), (∀ x ∈ l, x.1 ≠ k) → envGet e' k = some v →
+          envGet (l.map (fun kv => EnvAct.export kv.1 kv.2) |>.foldl applyAct e') k = some v := by
+        intro l
+        induction l with
+        | nil => intro e' _ h'; exact h'
+        | cons y ys ihy =>
+          intro e' hl h'
+          simp only [List.map_cons, List.foldl_cons, applyAct]
+          apply ihy _ (fun x hx => hl x (List.mem_cons_of_mem _ hx))
+          rw [envGet_envSet, if_neg (fun e'' => hl y List.mem_cons_self e''.symm)]
+          exact h'
+      apply key rest _ (fun x hx e' => hk (e' ▸ List.mem_map.mpr ⟨x, hx, rfl⟩))
+      rw [envGet_envSet, if_pos rfl]
+    · exact ih hnr _ k v h
+
+/-- **the described variables win over the named environment**: whatever the agent's environment
+    is and whatever the named environment un-sets or sets, after the task environment section every
+    variable of the task description has the described value -/
+theorem C10_env_over_named (named : Option (List Nat × List (Nat × Nat))) (env : List (Nat × Nat))
+    (hn : (env.map (·.1)).Nodup) (agentEnv : Env) (k v : Nat) (h : (k, v) ∈ env) :
+    envGet (runEnv agentEnv (taskEnvActs named env)) k = some v := by
+  unfold taskEnvActs runEnv
+  rw [List.foldl_append]
+  exact runEnv_exports env hn _ k v h
+
+/-- with the two parts the other way round a variable the named environment un-sets is lost (witness) -/
+theorem C10_env_order_witness :
+    envGet (runEnv [(1, 7)] ([EnvAct.export 1 5] ++ [EnvAct.source [1] []])) 1 = none := by decide
+
 end RPVerif.C10
